@@ -168,7 +168,7 @@ macro_rules! first_op {
     };
 }
 // @h c04_lex2_* timeout=1200 mem=10
-// @h c04_lex2_equalverify tier=thorough
+// @h c04_lex2_equalverify tier=thorough mem=16 timeout=2400
 // @h c04_lex2_verify tier=thorough
 // @h c04_lex2_num tier=thorough
 first_op!(c04_lex2_equal, 0x87);
